@@ -70,31 +70,33 @@ Record ast := mk_ast {
   handled : list msg;        (* handlers started, in order *)
   drained : list msg;        (* dropped unhandled by Receiver::drop *)
   released : list msg;       (* messages whose reply port was used or dropped, in order *)
+  finished : list msg;       (* handlers that returned, in order *)
   overlap : list msg;        (* sends that were between check and push when stopping was set *)
   late : list msg;           (* accepted between the drain and the drop of the receiver *)
   tr : list lev
 }.
 
 Definition init (c : nat) : ast :=
-  mk_ast c [] false false true PPreStart [] false [] [] [] [] [] [] [].
+  mk_ast c [] false false true PPreStart [] false [] [] [] [] [] [] [] [].
 
-Definition w_queue v s := mk_ast (cap s) v (slot s) (stopping s) (rx s) (pc s) (passed s) (swapped s) (accepted s) (handled s) (drained s) (released s) (overlap s) (late s) (tr s).
-Definition w_slot v s := mk_ast (cap s) (queue s) v (stopping s) (rx s) (pc s) (passed s) (swapped s) (accepted s) (handled s) (drained s) (released s) (overlap s) (late s) (tr s).
-Definition w_rx v s := mk_ast (cap s) (queue s) (slot s) (stopping s) v (pc s) (passed s) (swapped s) (accepted s) (handled s) (drained s) (released s) (overlap s) (late s) (tr s).
-Definition w_pc v s := mk_ast (cap s) (queue s) (slot s) (stopping s) (rx s) v (passed s) (swapped s) (accepted s) (handled s) (drained s) (released s) (overlap s) (late s) (tr s).
-Definition w_passed v s := mk_ast (cap s) (queue s) (slot s) (stopping s) (rx s) (pc s) v (swapped s) (accepted s) (handled s) (drained s) (released s) (overlap s) (late s) (tr s).
-Definition w_swapped v s := mk_ast (cap s) (queue s) (slot s) (stopping s) (rx s) (pc s) (passed s) v (accepted s) (handled s) (drained s) (released s) (overlap s) (late s) (tr s).
-Definition w_accepted v s := mk_ast (cap s) (queue s) (slot s) (stopping s) (rx s) (pc s) (passed s) (swapped s) v (handled s) (drained s) (released s) (overlap s) (late s) (tr s).
-Definition w_handled v s := mk_ast (cap s) (queue s) (slot s) (stopping s) (rx s) (pc s) (passed s) (swapped s) (accepted s) v (drained s) (released s) (overlap s) (late s) (tr s).
-Definition w_drained v s := mk_ast (cap s) (queue s) (slot s) (stopping s) (rx s) (pc s) (passed s) (swapped s) (accepted s) (handled s) v (released s) (overlap s) (late s) (tr s).
-Definition w_released v s := mk_ast (cap s) (queue s) (slot s) (stopping s) (rx s) (pc s) (passed s) (swapped s) (accepted s) (handled s) (drained s) v (overlap s) (late s) (tr s).
-Definition w_late v s := mk_ast (cap s) (queue s) (slot s) (stopping s) (rx s) (pc s) (passed s) (swapped s) (accepted s) (handled s) (drained s) (released s) (overlap s) v (tr s).
-Definition w_tr v s := mk_ast (cap s) (queue s) (slot s) (stopping s) (rx s) (pc s) (passed s) (swapped s) (accepted s) (handled s) (drained s) (released s) (overlap s) (late s) v.
+Definition w_queue v s := mk_ast (cap s) v (slot s) (stopping s) (rx s) (pc s) (passed s) (swapped s) (accepted s) (handled s) (drained s) (released s) (finished s) (overlap s) (late s) (tr s).
+Definition w_slot v s := mk_ast (cap s) (queue s) v (stopping s) (rx s) (pc s) (passed s) (swapped s) (accepted s) (handled s) (drained s) (released s) (finished s) (overlap s) (late s) (tr s).
+Definition w_rx v s := mk_ast (cap s) (queue s) (slot s) (stopping s) v (pc s) (passed s) (swapped s) (accepted s) (handled s) (drained s) (released s) (finished s) (overlap s) (late s) (tr s).
+Definition w_pc v s := mk_ast (cap s) (queue s) (slot s) (stopping s) (rx s) v (passed s) (swapped s) (accepted s) (handled s) (drained s) (released s) (finished s) (overlap s) (late s) (tr s).
+Definition w_passed v s := mk_ast (cap s) (queue s) (slot s) (stopping s) (rx s) (pc s) v (swapped s) (accepted s) (handled s) (drained s) (released s) (finished s) (overlap s) (late s) (tr s).
+Definition w_swapped v s := mk_ast (cap s) (queue s) (slot s) (stopping s) (rx s) (pc s) (passed s) v (accepted s) (handled s) (drained s) (released s) (finished s) (overlap s) (late s) (tr s).
+Definition w_accepted v s := mk_ast (cap s) (queue s) (slot s) (stopping s) (rx s) (pc s) (passed s) (swapped s) v (handled s) (drained s) (released s) (finished s) (overlap s) (late s) (tr s).
+Definition w_handled v s := mk_ast (cap s) (queue s) (slot s) (stopping s) (rx s) (pc s) (passed s) (swapped s) (accepted s) v (drained s) (released s) (finished s) (overlap s) (late s) (tr s).
+Definition w_drained v s := mk_ast (cap s) (queue s) (slot s) (stopping s) (rx s) (pc s) (passed s) (swapped s) (accepted s) (handled s) v (released s) (finished s) (overlap s) (late s) (tr s).
+Definition w_released v s := mk_ast (cap s) (queue s) (slot s) (stopping s) (rx s) (pc s) (passed s) (swapped s) (accepted s) (handled s) (drained s) v (finished s) (overlap s) (late s) (tr s).
+Definition w_finished v s := mk_ast (cap s) (queue s) (slot s) (stopping s) (rx s) (pc s) (passed s) (swapped s) (accepted s) (handled s) (drained s) (released s) v (overlap s) (late s) (tr s).
+Definition w_late v s := mk_ast (cap s) (queue s) (slot s) (stopping s) (rx s) (pc s) (passed s) (swapped s) (accepted s) (handled s) (drained s) (released s) (finished s) (overlap s) v (tr s).
+Definition w_tr v s := mk_ast (cap s) (queue s) (slot s) (stopping s) (rx s) (pc s) (passed s) (swapped s) (accepted s) (handled s) (drained s) (released s) (finished s) (overlap s) (late s) v.
 
 (* storing stopping = true; the first time, remember who is in mid-send *)
 Definition set_stopping (s : ast) : ast :=
   mk_ast (cap s) (queue s) (slot s) true (rx s) (pc s) (passed s) (swapped s) (accepted s)
-         (handled s) (drained s) (released s)
+         (handled s) (drained s) (released s) (finished s)
          (if stopping s then overlap s else passed s) (late s) (tr s).
 
 Definition log (e : lev) (s : ast) : ast := w_tr (tr s ++ [e]) s.
@@ -219,8 +221,8 @@ Definition step_gen (rep : bool) (s : ast) (e : ev) : option ast :=
     match pc s with
     | PHandling x =>
       if msg_eqb m x
-      then Some (w_released (released s ++ [x])
-                  (w_pc (match mbeh x with BFail => PBeginStop XFailed | _ => PSelStop end) s))
+      then Some (w_finished (finished s ++ [x]) (w_released (released s ++ [x])
+                  (w_pc (match mbeh x with BFail => PBeginStop XFailed | _ => PSelStop end) s)))
       else None
     | _ => None
     end
